@@ -7,6 +7,12 @@ HERE = os.path.dirname(os.path.dirname(os.path.abspath(__file__)))
 
 E1 = "fsym (bounded symbolic execution of the emitted Fortran into z3) + gfortran replay"
 CHECKS = {
+    "C01": dict(
+        level="translation_validation", engine="fsym",
+        technique="SMT translation validation: z3 decides equivalence of the original Fortran (native SELECT CASE/WHERE/array semantics) vs the text written back by FortranWriter (all inputs, extents and trip counts <= bound)",
+        text="Real FortranReader+FortranWriter (no transformation) on every program of a generated front-end construct family (SELECT CASE with values/ranges/default/logical selectors, WHERE/ELSEWHERE incl. non-elemental right-hand sides, array notation and reductions with DIM/MASK, loops with negative/zero-trip/stepped bounds, DO WHILE, EXIT/CYCLE/RETURN, named and optional arguments, functions, grouping-sensitive expressions, code blocks). Original and written text are both executed symbolically by an interpreter written from the standard (not via PSyclone's lowering) and one z3 query per program decides equality of every observable for all inputs; a second query decides that the written code stays in bounds / does not divide by zero whenever the original does not. Reader/writer internal errors and output that gfortran rejects are reported as violations (decided by running, not by the solver). Counterexamples are replayed through gfortran.",
+        note="Bounds: extents and trip counts <= 3 (quick) / 4 (thorough); exact integer/real arithmetic; programs = enumerated G-F family (about 150), inputs = solver. Trusted: fparser2 parser, z3, fsym, gfortran for replay.",
+        ref="5/C01"),
     "C05": dict(
         level="translation_validation", engine="fsym",
         technique="SMT translation validation: z3 decides equivalence of symbolically executed original vs transformed Fortran (all inputs, trip<=K)",
